@@ -344,6 +344,57 @@ example : (rfc idDecoder {} {} ⟨exChunked.bytes, false⟩).outcome.isOk = true
 example : (decode idDecoder {} {} [] ⟨exChunked.bytes.take 62, true⟩).outcome = .exc .NetworkError := by decide
 example : (decode idDecoder {} {} [] ⟨exChunked.bytes.take 52, true⟩).outcome = .exc .NetworkError := by decide
 
+/-! ## a reset is never an end of message -/
+
+/-- **C08 `reset_is_never_complete`.**  If the peer ends what it sends with a reset (RST) instead
+of an orderly close, the reader reports success only when the message was already complete by
+its own framing with the connection still open — for every byte string and schedule.  A reset
+never plays the part of the close that delimits a message. -/
+theorem reset_is_never_complete (h : dc.Hom) (cfg : StreamCfg) (req : ReqInfo) (σ : List Nat) (b : Bytes)
+    (hok : (decodeE dc cfg req σ b .reset).outcome.isOk = true) :
+    (rfc dc cfg req ⟨b, false⟩).outcome.isOk = true ∧
+    (decodeE dc cfg req σ b .reset) = decode dc cfg req σ ⟨b, false⟩ := by
+  have a := decode_agrees h cfg req σ ⟨b, false⟩
+  unfold decodeE at hok ⊢
+  simp only at hok ⊢
+  by_cases hst : ((decode dc cfg req σ ⟨b, false⟩).outcome == Outcome.stalled) = true
+  · simp [hst, Outcome.isOk] at hok
+  · simp only [hst, Bool.false_eq_true, if_false] at hok ⊢
+    exact ⟨a.outcome ▸ hok, trivial⟩
+
+/-- **C08 `close_delimited_needs_close`.**  A response delimited by the end of the connection
+(no usable Content-Length, not chunked, or `--ignore-length`) is complete only if the peer
+CLOSED: followed by a reset — or by nothing — it is never a successful download, wherever the
+stream stops. -/
+theorem close_delimited_needs_close (h : dc.Hom) (cfg : StreamCfg) (req : ReqInfo) (σ : List Nat) (b : Bytes)
+    (block nt r : Bytes) (st : Status) (f : Fields)
+    (hhead : specHead (b.length + 2) b false [] 0 = .ok block nt r)
+    (hparse : parseResponse block = .ok (st, f))
+    (hnb : isNoBody req st = false)
+    (hclose : bodyStrategy cfg f = .close ∨
+      (bodyStrategy cfg f = .length ∧ contentLength? ((f.get? sContentLength).getD []) = none)) :
+    (decodeE dc cfg req σ b .reset).outcome.isOk = false ∧
+    (decodeE dc cfg req σ b .stillOpen).outcome.isOk = false := by
+  have hspec : (rfc dc cfg req ⟨b, false⟩).outcome.isOk = false := by
+    unfold rfc
+    simp only [hhead, hparse, hnb, Bool.false_eq_true, if_false]
+    unfold specBody
+    simp only
+    rcases hclose with hc | ⟨hl, hn⟩
+    · simp only [hc]; exact specClose_open_not_ok _ _ _ _ _ _
+    · simp only [hl, hn]; exact specClose_open_not_ok _ _ _ _ _ _
+  constructor
+  · cases hb : (decodeE dc cfg req σ b .reset).outcome.isOk with
+    | false => rfl
+    | true => have := (reset_is_never_complete h cfg req σ b hb).1; rw [hspec] at this; cases this
+  · have a := decode_agrees h cfg req σ ⟨b, false⟩
+    show (decode dc cfg req σ ⟨b, false⟩).outcome.isOk = false
+    rw [a.outcome]; exact hspec
+
+example : (decodeE idDecoder {} {} [] (lit "HTTP/1.0 200 OK\r\n\r\npart of the bo") .reset).outcome = .exc .NetworkError ∧
+    (decodeE idDecoder {} {} [] (lit "HTTP/1.0 200 OK\r\n\r\npart of the bo") .closed).outcome.isOk = true ∧
+    (decodeE idDecoder {} {} [] exMsg.bytes .reset).outcome.isOk = true := by decide
+
 /-! ## bridge: what the real `StreamReader` does is a schedule -/
 
 /-- `StreamReader.read(n)` returns `min n |buffer|` bytes of a non-empty buffer (model
